@@ -132,8 +132,9 @@ func casePlyLong(c *hlib.Ctx, k int) {
 		}
 	}
 	lawCheck(c, tb)
+	dl := pickDelivery(c, "plys_long")
 	var op strings.Builder
-	fmt.Fprintf(&op, "c15 plys %s %d", codec.ShowHeader(h), len(rows))
+	fmt.Fprintf(&op, "c15 plys %s %s %d", dl.tag(), codec.ShowHeader(h), len(rows))
 	for _, row := range rows {
 		fmt.Fprintf(&op, " %s", codec.ShowRow(row))
 	}
@@ -161,7 +162,7 @@ func casePlyLong(c *hlib.Ctx, k int) {
 			}
 		}
 		data := buf.Bytes()
-		return codec.HexBytes(data) + " 1 | " + readPlyAll(data)
+		return codec.HexBytes(data) + " 1 | " + readPlyAll(dl.reader(data))
 	})
 	c.EmitSite(op.String(), out, "corr:c15 plys/long-list")
 }
